@@ -88,11 +88,6 @@ theorem N1_st_getComponent (hc : c * c = 2) (h2 : (2:K) ≠ 0) (a : Fin 6 → Fi
     gen% (Gen.N1_st_getComponent_all c c3 fn) | a 3 3
       = T4.comps pairs1 (T4.ofST c (rm mS1 mS1 a)) := by
   t4_eq hc
-/-- `st2tost2::convert(D)`: restriction of `D` to symmetric arguments, `(D_ijkl + D_ijlk)/2` -/
-theorem N1_st_convert_from_t2tost2 (hc : c * c = 2) (h2 : (2:K) ≠ 0) (a : Fin 6 → Fin 9 → K) :
-    pad1_66 (gen% (Gen.N1_st_convert_from_t2tost2_all c c3 fn) | a 3 3)
-      = rows66 (T4.stoST c (T4.symR (T4.ofTS c (rm mS1 mT1 a)))) := by
-  t4_eq hc
 /-- `t2tost2 * st2tot2` -/
 theorem N1_st_comp_ts_s2t (hc : c * c = 2) (h2 : (2:K) ≠ 0) (a : Fin 6 → Fin 9 → K) (b : Fin 9 → Fin 6 → K) :
     pad1_66 (gen% (Gen.N1_st_comp_ts_s2t_all c c3 fn) | a 3 3 | b 3 3)
